@@ -184,6 +184,36 @@ func hostileReplies() []hostileReply {
 		{"ok", auto(nil)},
 		{"nothing", func(*hostileBackend, http.ResponseWriter, *http.Request) {}},
 	}
+	// error heads the way real servers and proxies write them: with the body's Content-Length
+	for i, e := range []struct {
+		status int
+		ct     string
+		body   string
+		hdr    map[string]string
+	}{
+		{503, "text/plain", "upstream connect error", nil},
+		{404, "application/json", `{"code":5,"message":"no such thing"}`, nil},
+		{404, "application/json; charset=utf-8", `{"code":"not_found","message":"no such thing"}`, nil},
+		{200, "", "", map[string]string{"Grpc-Status": "5", "Grpc-Message": "no such thing"}},
+		{429, "application/json", `{"code":"resource_exhausted"}`, nil},
+	} {
+		e := e
+		rs = append(rs, hostileReply{fmt.Sprintf("error-head-with-content-length-%d", i), func(hb *hostileBackend, w http.ResponseWriter, r *http.Request) {
+			ct := e.ct
+			if ct == "" {
+				ct = r.Header.Get("Content-Type")
+			}
+			w.Header().Set("Content-Type", ct)
+			for k, v := range e.hdr {
+				w.Header().Set(k, v)
+			}
+			w.Header().Set("Content-Length", fmt.Sprint(len(e.body)))
+			w.WriteHeader(e.status)
+			if e.body != "" {
+				_, _ = w.Write([]byte(e.body))
+			}
+		}})
+	}
 	// grpc-message values around the percent-decoder: broken escapes at every position,
 	// alone and next to valid ones, invalid UTF-8 when decoded
 	for i, gm := range []string{"%", "%4", "a%", "a%4", "%41%", "%41%4", "d%C3%A9bit at 100%", "%C3%A9%2", "%%41", "%zz%41", "%41%zz", "%FF%FE", "%C3", "%00", "%0A%0D", strings.Repeat("%41", 300) + "%"} {
